@@ -14,6 +14,22 @@ for d in sorted(os.listdir('/verif/seeded')):
         m = json.load(open(mp))
         used.setdefault(m['property'], []).append(f"- {m['change']} (needed: {m['needs_to_manifest']})")
 EXTRA = {
+ '6': """Five rounds of changes have already been written for this property (list below): single-site slips, cross-call state,
+ feature combinations, cooperating sites, environment answers, rare-but-legal values. Find something that list does NOT touch.
+ Directions worth trying now:
+  * the state a REFUSED or FAILED call leaves behind (an error return that the caller ignores and carries on from), a second
+    finish(), a writer re-opened by new_append more than once, an archive handle used again after an entry failed to open;
+  * two features of the crate meeting (encryption + streaming, raw copy + alignment, append + ZIP64, extra data + large_file,
+    data descriptors + prepended data, comments + many entries) where each works alone;
+  * a quantity crossing an INTERNAL boundary of the crate or of a codec (a 64 KiB scratch buffer, BufReader's 8 KiB, the
+    32 KiB decoder input buffer, a u16/u32 intermediate) only when a second quantity is also unusual;
+  * an accessor, iterator or trait impl of the public API that earlier ideas never went through (look at src/lib.rs,
+    src/read.rs, src/read/stream.rs, src/write.rs, src/types.rs, src/result.rs, src/unstable.rs, src/compression.rs);
+  * order dependence: the same calls in another order, entries listed in the central directory in another order than they lie in
+    the file, a handle that opened a LATER entry first, an operation repeated twice;
+  * legitimate but unusual environment behaviour at ONE particular point (short transfer, Interrupted, WouldBlock-free retry, a
+    seek that reports a different position, a sink not at offset 0, a reader positioned mid-stream).
+ The change should look like something a maintainer could plausibly write (a refactoring, an optimisation, a 'robustness' tweak).""",
  '5': """Earlier rounds have used up the obvious single-site slips, many cross-call state bugs and several feature combinations
  (see the list below). This time look for something that list does NOT touch. Directions that have produced good changes:
   * an API entry point or accessor of this crate that the property covers but the used ideas never went through
